@@ -4,7 +4,10 @@ go 1.25
 
 toolchain go1.25.5
 
-require github.com/ozontech/file.d v0.0.0
+require (
+	github.com/ozontech/file.d v0.0.0
+	github.com/ozontech/insane-json v0.1.9
+)
 
 require (
 	github.com/beorn7/perks v1.0.1 // indirect
@@ -47,7 +50,6 @@ require (
 	github.com/modern-go/concurrent v0.0.0-20180306012644-bacd9c7ef1dd // indirect
 	github.com/modern-go/reflect2 v1.0.3-0.20250322232337-35a7c28c31ee // indirect
 	github.com/munnerz/goautoneg v0.0.0-20191010083416-a7dc8b61c822 // indirect
-	github.com/ozontech/insane-json v0.1.9 // indirect
 	github.com/pierrec/lz4/v4 v4.1.25 // indirect
 	github.com/pkg/errors v0.9.1 // indirect
 	github.com/pmezard/go-difflib v1.0.1-0.20181226105442-5d4384ee4fb2 // indirect
